@@ -26,7 +26,7 @@ ASSUMPTIONS = [
     "library calls in the frozen no-raise table of sa/effects.py do not raise (logging, loop.time/create_task, set/deque ops, StreamWriter.write/close/is_closing)",
     "asyncio.open_connection / drain / wait_closed raise only OSError family; CancelledError is outside the lattice",
 ]
-FLOORS = {"C07.R1": 5, "C07.R2": 7, "C07.R3": 3, "C07.R4": 5, "C07.R5": 2, "C07.R6": 3, "C07.R7": 6, "C07.R8": 3, "C07.R9": 4, "C07.R10": 1, "C07.R11": 5, "C07.R12": 1, "C07.R13": 1, "C07.R14": 1}
+FLOORS = {"C07.R1": 5, "C07.R2": 7, "C07.R3": 3, "C07.R4": 5, "C07.R5": 2, "C07.R6": 3, "C07.R7": 6, "C07.R8": 3, "C07.R9": 4, "C07.R10": 1, "C07.R11": 5, "C07.R12": 1, "C07.R13": 1, "C07.R14": 1, "C07.R15": 1}
 
 
 def run(ctx):
@@ -52,6 +52,7 @@ def run(ctx):
 
     reuse(ctx, "C07.R14", [lambda c: c13.r1(c, "C13.R1")], "a legal frame never becomes an exception in the read path: header, payload (also an empty one) and check bytes are read unconditionally, in that order, with the announced lengths (C13.R1) - otherwise every such frame costs a reset",
           keep=lambda o: o.construct.startswith("_read_one_message") or o.verdict != "HOLDS")
+    reuse(ctx, "C07.R15", [c01.r11], "an unencodable outgoing message costs only itself: the flush goes on with the messages queued behind it (C01.R11)")
     reuse(ctx, "C07.R10", [c01.r1], "a message is taken out of the queue before the attempt to write it, so one that cannot be encoded is gone when its error is handled and cannot block every later command (C01.R1)",
           keep=lambda o: "_drain_message_queue" in o.construct or o.verdict != "HOLDS")
 
